@@ -71,14 +71,14 @@ def selftests():
 
 
 def seeded():
-    out = ["| id | property | what the change breaks | needs to manifest | caught by (rule : site) |", "|---|---|---|---|---|"]
+    out = ["| id | property | what the change breaks | needs to manifest | caught by (rule : site) | history of detection |", "|---|---|---|---|---|---|"]
     for d in sorted(glob.glob(os.path.join(V, "seeded", "*"))):
         m = os.path.join(d, "meta.json")
         if not os.path.exists(m):
             continue
         j = json.load(open(m))
-        out.append("| %s | %s | %s | %s | %s |" % (os.path.basename(d), j.get("property"), str(j.get("what_breaks", ""))[:200].replace("|", "/"), str(j.get("needs_to_manifest", ""))[:160].replace("|", "/"),
-                                             "<br>".join(j.get("caught_by", [])) or j.get("verdict", "")))
+        out.append("| %s | %s | %s | %s | %s | %s |" % (os.path.basename(d), j.get("property"), str(j.get("what_breaks", ""))[:200].replace("|", "/"), str(j.get("needs_to_manifest", ""))[:160].replace("|", "/"),
+                                             "<br>".join(j.get("caught_by", [])) or j.get("verdict", ""), str(j.get("history_of_detection", "")).replace("|", "/")))
     return "\n".join(out)
 
 
